@@ -303,13 +303,13 @@ PROPS = {
         runs=[dict(name="asan", monitor="mon_life", flavour="asan", cases={"quick": 30000, "thorough": 3000000}),
               dict(name="plain", monitor="mon_life", flavour="plain", cases={"quick": 60000, "thorough": 6000000})],
         rule="one case = a random program (6..70 steps, then every held reference dropped in random order and the glyph cache destroyed) of create (bits with library or caller storage, solid, linear/radial/conical) / ref / unref / "
-             "set_alpha_map (to a bits image, to itself, to an image that has or is a map, to a non-bits image, re-attach, detach) / set_clip_region(32) / set_transform / set_filter (plain, convolution, separable) / set_destroy_function / "
+             "set_alpha_map (to a bits image, to itself, to an image that has or is a map, to a non-bits image, re-attach of the current map also after the program dropped its own reference on it, detach) / set_clip_region(32) / set_transform / set_filter (plain, convolution, separable) / set_destroy_function / "
              "composite using pool images / glyph-cache insert+remove of pool images; model: per image the references the program holds, its attachment edge and its holder count, predicting which images die in each call; "
              "oracles: unref returns TRUE exactly at a predicted death, the destroy callback runs exactly once inside that call with the registered data and an intact image, attachments are refused exactly when they would form a chain, "
              "after the last reference every image has died and no block allocated by the library during the program is live (malloc/calloc/realloc/free wrapped at link time), caller-owned storage is still the caller's (freed by the monitor or in the callback), "
              "AddressSanitizer reports (asan run); evaluations = unrefs + attachment calls + quiescent points judged; a cell = program shape by hash",
         floors={"any": {"histories": 20000, "deaths": 100000, "callbacks_expected": 30000, "cascaded_deaths_of_alpha_maps": 3000, "attaches": 20000, "attach_refusals_expected": 5000, "quiescent_points": 20000, "labels:attach": 7}},
-        assumptions=["a program never uses an image it holds no reference on", "overlapping source/destination storage in a composite is outside the statement and not generated"],
+        assumptions=["a program names an image it holds no reference on only to re-attach it as the alpha map it already is (the attachment keeps it alive)", "overlapping source/destination storage in a composite is outside the statement and not generated"],
     ),
     "C16": dict(
         level="exploration", monitors={"mon_thread": {"sources": ["mon_thread.c", "vf_req.c", "ref_pixel.c", "ref_ops.c", "vf.c"], "link": ["-lpthread"]}},
